@@ -282,6 +282,11 @@ impl TransportManagerHandle {
         #[cfg(feature = "verif")]
         verif_log::ADD_ORDER
             .with(|log| log.borrow_mut().extend(peer_addresses.iter().cloned()));
+        #[cfg(feature = "verif")]
+        verif_log::ADD_CALLS.with(|log| {
+            log.borrow_mut()
+                .push((num_added, super::address::verif_log::evicted_len()))
+        });
 
         let mut peers = self.peers.write();
         let entry = peers.entry(*peer).or_default();
@@ -386,6 +391,18 @@ pub mod verif_log {
     /// call, in insertion order.
     pub fn take_add_order() -> Vec<Multiaddr> {
         ADD_ORDER.with(|log| std::mem::take(&mut *log.borrow_mut()))
+    }
+
+    thread_local! {
+        pub(super) static ADD_CALLS: RefCell<Vec<(usize, usize)>> = const { RefCell::new(Vec::new()) };
+    }
+
+    /// One entry per `add_known_address` call on this thread since the last call: the number of
+    /// accepted addresses and the length of the eviction log of `AddressStore::insert` when the
+    /// call handed them to the store (calls made inside `Litep2p::new` cannot be observed one by
+    /// one from outside).
+    pub fn take_add_calls() -> Vec<(usize, usize)> {
+        ADD_CALLS.with(|log| std::mem::take(&mut *log.borrow_mut()))
     }
 }
 
